@@ -18,7 +18,7 @@ def declare(V, skel, prefix="t"):
     for c, (nm, kind) in enumerate(TABLES[skel["table"]]):
         for r in range(n):
             if kind == "int":
-                V.int(f"{prefix}{r}_{c}", -50, 50)
+                V.int(f"{prefix}{r}_{c}", 0 if (nm == "start" and skel.get("start_dtype")) else -50, 50)
             elif kind == "strand":
                 V.int(f"{prefix}{r}_{c}", 0, 2)
             else:
@@ -35,7 +35,7 @@ def build(ctx, skel, x, prefix="t", rows=None):
     cols = {}
     for c, (nm, kind) in enumerate(TABLES[skel["table"]]):
         if kind == "int":
-            cols[nm] = ctx.arr([x[f"{prefix}{r}_{c}"] for r in rows], "int64")
+            cols[nm] = ctx.arr([x[f"{prefix}{r}_{c}"] for r in rows], skel.get("start_dtype", "int64") if nm == "start" else "int64")
         elif kind == "strand":
             cols[nm] = EncodedArray(ctx.arr([x[f"{prefix}{r}_{c}"] for r in rows], "uint8"), StrandEncoding)
         else:
@@ -87,6 +87,8 @@ class TableOps(Harness):
                 if op in ("sort_by", "replace", "add_fields", "add_fields_twice", "rows_roundtrip", "replace_wrong_len") and tab == "seqentry":
                     continue
                 out.append(dict(table=tab, n=n, op=op))
+            if tab != "seqentry":      # the key column held in an unsigned dtype (differences of unsigned numbers wrap around)
+                out += [dict(table=tab, n=n, op="sort_by", start_dtype=dt_) for dt_ in ("uint8", "uint16")]
             if tier == "thorough":
                 for a, b in (("fancy", "mask"), ("slice_rev", "fancy"), ("mask", "sort_by"), ("concat", "slice_tail"), ("sort_by", "fancy")):
                     if "sort_by" in (a, b) and tab == "seqentry":      # no integer column to sort by
@@ -456,6 +458,8 @@ class Conversions(Harness):
     def skeletons(self, tier, seed):
         shapes = [[3, 0, 1], [0, 2, 2]] + ([[2, 0, 0, 1]] if tier == "thorough" else [])
         out = [dict(case=c, lens=l) for c in ("dict", "pandas") for l in shapes]
+        # rows as Python objects (tolist / toiter) of a SELECTION whose list-valued columns nothing has flattened yet
+        out += [dict(case="tolist", lens=l, select=s_) for l in shapes for s_ in ("mask", "tail", "perm")]
         out += [dict(case="retype", order=o, n=2) for o in (["str", "dna"], ["dna", "str"], ["dna", "dna"])]
         return out
 
@@ -483,7 +487,17 @@ class Conversions(Harness):
         mk = (lambda v: RaggedArray(__import__("numpy").array(v, dtype="int64"), lens)) if conc else (lambda v: RaggedArray(ctx.arr(v, "int64"), lens))
         full = GfaPath([f"p{r}" for r in range(n)], mk(vals), mk(dirs))
         bits = [x[f"m{r}"] for r in range(n)]
+        if skel.get("select") in ("tail", "perm"):
+            sel = full[1:] if skel["select"] == "tail" else full[[n - 1, 0]]
+            keep = list(range(1, n)) if skel["select"] == "tail" else [n - 1, 0]
+            ents = sel.tolist()
+            return dict(bits=None, keep=keep, n=len(sel), back=dict(names=[str(e.name) for e in ents], node_ids=[ctx.lst(e.node_ids) for e in ents],
+                                                                    directions=[ctx.lst(e.directions) for e in ents]))
         sel = full[ctx.arr(bits, "int64") == 1]
+        if skel["case"] == "tolist":
+            ents = sel.tolist()
+            return dict(bits=[bool(b == 1) for b in bits], n=len(sel), back=dict(names=[str(e.name) for e in ents],
+                        node_ids=[ctx.lst(e.node_ids) for e in ents], directions=[ctx.lst(e.directions) for e in ents]))
         rows = lambda t: dict(names=[nm.to_string() for nm in t.name], node_ids=ctx.lst(t.node_ids), directions=ctx.lst(t.directions))
         res = dict(bits=[bool(b == 1) for b in bits], n=len(sel))
         if conc:
@@ -513,10 +527,10 @@ class Conversions(Harness):
             out.append(dict(kind=kind, is_dna=bool(enc == bnp.DNAEncoding), is_base=bool(enc == BaseEncoding), raw=ctx.lst(r.extra.ravel().raw())))
         return dict(steps=out)
 
-    def _exp_rows(self, skel, bits):
+    def _exp_rows(self, skel, bits, keep=None):
         lens = skel["lens"]
         starts = [sum(lens[:r]) for r in range(len(lens))]
-        keep = [r for r, b in enumerate(bits) if b]
+        keep = [r for r, b in enumerate(bits) if b] if keep is None else keep
         return keep, starts
 
     def post(self, skel, x, out):
@@ -534,18 +548,18 @@ class Conversions(Harness):
                     conj.append(TI(v) == (asc if st["kind"] == "str" else c))          # DNAEncoding = ACGT: code == index
             return z_and(conj)
         lens = skel["lens"]
-        keep, starts = self._exp_rows(skel, out["bits"])
+        keep, starts = self._exp_rows(skel, out["bits"], out.get("keep"))
         conc = skel["case"] == "pandas"
         if out["n"] != len(keep):
             return False
         if conc and out["df_rows"] != len(keep):
             return False
-        if not conc and any(v != len(keep) for v in out["dict_lens"].values()):
+        if skel["case"] == "dict" and any(v != len(keep) for v in out["dict_lens"].values()):
             return False
         b = out["back"]
         if b["names"] != [f"p{r}" for r in keep] or len(b["node_ids"]) != len(keep) or len(b["directions"]) != len(keep):
             return False
-        conj = [x[f"m{r}"].t == (1 if r in keep else 0) for r in range(len(lens))]
+        conj = [x[f"m{r}"].t == (1 if r in keep else 0) for r in range(len(lens))] if out["bits"] is not None else []
         for j, r in enumerate(keep):
             if len(b["node_ids"][j]) != lens[r] or len(b["directions"][j]) != lens[r]:
                 return False
@@ -569,18 +583,18 @@ class Conversions(Harness):
             return None
         lens = skel["lens"]
         bits = [cx[f"m{r}"] == 1 for r in range(len(lens))]
-        keep, starts = self._exp_rows(skel, bits)
+        keep, starts = self._exp_rows(skel, bits, cout.get("keep"))
         conc = skel["case"] == "pandas"
         val = lambda k: ((3 * k + 1) % 10 if conc else cx[f"v{k}"])
         dr = lambda k: (k % 2 if conc else cx[f"d{k}"])
         exp = dict(names=[f"p{r}" for r in keep], node_ids=[[val(starts[r] + i) for i in range(lens[r])] for r in keep],
                    directions=[[dr(starts[r] + i) for i in range(lens[r])] for r in keep])
-        what = "topandas/from_data_frame" if conc else "todict/from_dict"
+        what = "topandas/from_data_frame" if conc else ("todict/from_dict" if skel["case"] == "dict" else "tolist()")
         if cout["n"] != len(keep):
             return f"selection of rows {keep} has {cout['n']} rows"
         if conc and cout["df_rows"] != len(keep):
             return f"topandas() of the selection of rows {keep}: the data frame has {cout['df_rows']} rows"
-        if not conc and any(v != len(keep) for v in cout["dict_lens"].values()):
+        if skel["case"] == "dict" and any(v != len(keep) for v in cout["dict_lens"].values()):
             return f"todict() of the selection of rows {keep} (list lengths {lens}): column lengths {cout['dict_lens']}, expected {len(keep)} each"
         if cout["back"] != exp:
             return f"{what} round trip of rows {keep}: {cout['back']}, expected {exp}"
